@@ -52,6 +52,26 @@
 (* "out": empty response, or - the code tests the lon/lat ENVELOPE of the  *)
 (* tile, which is larger than the tile - rendered and masked completely,   *)
 (* so an upstream request for the permitted layer may be seen).            *)
+(*                                                                         *)
+(* SRS extent (same-SRS worlds): when the WMS service declares an extent   *)
+(* for the request SRS (`services: wms: bbox_srs` -> WMSServer.srs_extents;*)
+(* constant Ext) WMSServer.map answers a GetMap whose BBOX does not meet   *)
+(* the extent with a blank image BEFORE any layer is collected and before  *)
+(* the authorization callback is asked (action OutsideExtent), and reduces *)
+(* a BBOX that reaches beyond the extent to the part inside:               *)
+(* image.bbox_position_in_image gives the pixel rectangle (offsets         *)
+(* truncated with int(), Sub), the sub-query (intersection box, size of    *)
+(* that rectangle) is rendered, authorized, clipped per layer and request  *)
+(* wide and merged as usual, and SubImageSource pastes the result into a   *)
+(* transparent image of the requested size.  The sub-query has its own     *)
+(* resolution: a pixel of the pasted rectangle shows the ground up to one  *)
+(* output pixel towards +x / -y of its nominal place, and the limited_to   *)
+(* masks are drawn in that geometry (SubClass: the class of the sub-pixel  *)
+(* centre, computed in integers with a slack of one lattice unit).  The    *)
+(* variant exact = TRUE is the reference without that displacement (masks  *)
+(* at the nominal pixel centres); it satisfies the property, the code as   *)
+(* found (exact = FALSE) does not satisfy ClippedOutside.  GetFeatureInfo  *)
+(* does not look at the SRS extent at all.                                 *)
 (***************************************************************************)
 EXTENDS Integers, Sequences, FiniteSets, TLC
 
@@ -66,6 +86,9 @@ CONSTANTS
   TileSize,   \* <<tw, th>> pixels
   CombineChoices,     \* {FALSE}: the code as found (tile services: the layer's limited_to, ELSE the request's)
                       \* {TRUE} : candidate repair (both are applied);  BOOLEAN: either (trace validation)
+  Ext,        \* <<x0, y0, x1, y1>>: the extent the WMS service declares for the request SRS (lattice units), <<>>: none
+  ExactChoices,       \* {FALSE}: the code as found (the sub-image of a request reaching beyond Ext is displaced)
+                      \* {TRUE} : reference (masks at the nominal pixel centres);  BOOLEAN: either (trace validation)
   \* the universe explored by the model checker (unused by the trace specification)
   Requests, AuthKinds, PermOpts, LimIds, GlobIds, EntryNames
 
@@ -79,9 +102,10 @@ VARIABLES
   out,     \* the response (and the upstream requests made for it)
   path,    \* names of the actions taken (history, for the coverage guard of the harness)
   geo,     \* the geometry table in force (never changes; = GeomTab when model checking, the event's table in traces)
-  combine  \* the variant of authorize_tile_layer in force (never changes)
+  combine, \* the variant of authorize_tile_layer in force (never changes)
+  exact    \* the variant of the sub-image geometry in force (never changes)
 
-vars == <<req, cb, pc, actual, authz, cov, out, path, geo, combine>>
+vars == <<req, cb, pc, actual, authz, cov, out, path, geo, combine, exact>>
 
 ---------------------------------------------------------------------------
 Range(s) == {s[i] : i \in DOMAIN s}
@@ -157,6 +181,51 @@ One2(b) == LET m == 2 * Max(b[3], b[4]) IN m * m
 BoxRect(b) == <<2 * b[1], 2 * b[2], 2 * (b[1] + b[5] * b[3]), 2 * (b[2] + b[6] * b[4])>>
 GridRect == <<2 * GridBox[1], 2 * GridBox[2], 2 * GridBox[3], 2 * GridBox[4]>>
 
+\* the extent of the request SRS (WMSServer.srs_extents[params.srs]) against the box b of a GetMap request
+\* (MapExtent.contains -> grid.bbox_contains, MapExtent.intersection -> grid.bbox_intersects: touching is not meeting)
+HasExt == Ext # <<>>
+BoxX1(b) == b[1] + b[5] * b[3]
+BoxY1(b) == b[2] + b[6] * b[4]
+ExtContains(b) == Ext[1] <= b[1] /\ Ext[2] <= b[2] /\ BoxX1(b) <= Ext[3] /\ BoxY1(b) <= Ext[4]
+ExtMeets(b) == Ext[1] < BoxX1(b) /\ Ext[3] > b[1] /\ Ext[2] < BoxY1(b) /\ Ext[4] > b[2]
+Blank(r) == r.f = "wms.map" /\ HasExt /\ ~ExtMeets(r.box)
+Clipped(r) == r.f = "wms.map" /\ HasExt /\ ExtMeets(r.box) /\ ~ExtContains(r.box)
+\* image.bbox_position_in_image(params.bbox, params.size, limited_extent.bbox): the pixel rectangle columns l .. r-1, rows
+\* t .. bt-1 (0-based, rows top down; int() of the exact quotient: all operands are non-negative integers here) and the
+\* box x0, y0, x1, y1 of the sub-query
+Sub(b) ==
+  [l  |-> IF Ext[1] > b[1] THEN (Ext[1] - b[1]) \div b[3] ELSE 0,
+   r  |-> IF Ext[3] < BoxX1(b) THEN (Ext[3] - b[1]) \div b[3] ELSE b[5],
+   t  |-> IF Ext[4] < BoxY1(b) THEN (BoxY1(b) - Ext[4]) \div b[4] ELSE 0,
+   bt |-> IF Ext[2] > b[2] THEN (BoxY1(b) - Ext[2]) \div b[4] ELSE b[6],
+   x0 |-> Max(Ext[1], b[1]), y0 |-> Max(Ext[2], b[2]), x1 |-> Min(Ext[3], BoxX1(b)), y1 |-> Min(Ext[4], BoxY1(b))]
+InPaste(s, i, j) == s.l <= i /\ i < s.r /\ s.t <= j /\ j < s.bt
+\* a request whose part inside the extent is thinner than one pixel row / column gets a sub-query of size 0 (the code
+\* answers 500 Internal Server Error): not modelled, the harness does not make such requests
+SubOK(r) == Clipped(r) => LET s == Sub(r.box) IN s.r > s.l /\ s.bt > s.t
+\* the centre of the pixel of the sub-query that is pasted at (i, j), doubled lattice coordinates rounded to integers: the
+\* true centre is less than 2 (doubled) units away;  SubOne: one pixel of the sub-query (the larger side, rounded up) + 2
+SubPoint(s, i, j) == <<2 * s.x0 + ((2 * (i - s.l) + 1) * (s.x1 - s.x0)) \div (s.r - s.l),
+                       2 * s.y1 - ((2 * (j - s.t) + 1) * (s.y1 - s.y0)) \div (s.bt - s.t)>>
+CeilDiv(a, b) == (a + b - 1) \div b
+SubOne(s) == Max(CeilDiv(2 * (s.x1 - s.x0), s.r - s.l), CeilDiv(2 * (s.y1 - s.y0), s.bt - s.t)) + 2
+\* "out" / "in": the true centre is certainly more than one sub-query pixel outside / inside the area
+SubClass(id, s, i, j) ==
+  LET g == geo[id]
+      p == SubPoint(s, i, j)
+      t == SubOne(s)
+  IN IF FarOutside(g, p, t * t) THEN "out" ELSE IF FarInside(g, p, t * t) THEN "in" ELSE "band"
+SubClassSet(ids, s, i, j) ==
+  IF ids = {} THEN "in"
+  ELSE LET cl == [id \in ids |-> SubClass(id, s, i, j)] IN
+       IF \E id \in ids : cl[id] = "out" THEN "out"
+       ELSE IF \A id \in ids : cl[id] = "in" THEN "in" ELSE "band"
+\* the centre of output pixel (i, j) is more than one pixel inside the SRS extent
+WellInExt(b, i, j) ==
+  LET c == Centre(b, i, j)
+      m == 2 * Max(b[3], b[4])
+  IN c[1] - 2 * Ext[1] > m /\ 2 * Ext[3] - c[1] > m /\ c[2] - 2 * Ext[2] > m /\ 2 * Ext[4] - c[2] > m
+
 \* class of the centre of pixel (i, j) (0-based, rows top down) of the request box b with respect to area id
 ClassAt(id, b, i, j) ==
   IF IsRaster(geo[id]) THEN ClsName(geo[id].cls[j + 1][i + 1]) ELSE Class(id, Centre(b, i, j), One2(b))
@@ -199,10 +268,19 @@ Collect(acc, ls, prune) ==
            base == IF prune /\ IsOpaque(n) THEN <<>> ELSE acc
        IN Collect(AddAll(base, LayersFor(n)), Tail(ls), prune)
 
+\* wms.py:93-103 (map): the BBOX does not meet the extent of the request SRS: a blank image, nothing else happens
+\* (no layer is collected, the authorization callback is not asked, no upstream request)
+OutsideExtent ==
+  /\ UNCHANGED <<geo, combine, exact>> /\ path' = Append(path, "OutsideExtent")
+  /\ pc = "start" /\ Blank(req)
+  /\ out' = [NoOut EXCEPT !.status = 200, !.px = [j \in 1 .. req.box[6] |-> [i \in 1 .. req.box[5] |-> Mask({"dark"})]]]
+  /\ pc' = "done"
+  /\ UNCHANGED <<req, cb, actual, authz, cov>>
+
 \* wms.py:107-117 (map) / :212-219 (featureinfo)
 CollectLayers ==
-  /\ UNCHANGED <<geo, combine>> /\ path' = Append(path, "CollectLayers")
-  /\ pc = "start" /\ req.f \in {"wms.map", "wms.fi"}
+  /\ UNCHANGED <<geo, combine, exact>> /\ path' = Append(path, "CollectLayers")
+  /\ pc = "start" /\ req.f \in {"wms.map", "wms.fi"} /\ ~Blank(req)
   /\ actual' = Collect(<<>>, req.ls, req.f = "wms.map")
   /\ pc' = "authorize"
   /\ UNCHANGED <<req, cb, authz, cov, out>>
@@ -212,7 +290,7 @@ Flag(f) == CASE f \in {"wms.map", "wms.caps"} -> "map"
              [] f \in {"wms.fi", "wmts.fi.kvp", "wmts.fi.rest"} -> "featureinfo"
              [] OTHER -> "tile"
 CallAuthorize ==
-  /\ UNCHANGED <<geo, combine>> /\ path' = Append(path, "CallAuthorize")
+  /\ UNCHANGED <<geo, combine, exact>> /\ path' = Append(path, "CallAuthorize")
   /\ pc = "authorize" /\ req.f \in {"wms.map", "wms.fi"}
   /\ IF cb.authorized = "unauthenticated"
        THEN /\ out' = Error(401) /\ pc' = "done" /\ UNCHANGED <<authz, cov>>
@@ -229,7 +307,7 @@ CallAuthorize ==
 \* WMSServer.filter_actual_layers: explicitly requested and not authorized -> 403, implicitly (member of a requested
 \* group) -> dropped; authorized with limited_to -> wrapped in LimitedLayer (kept in authz.lims)
 FilterActualLayers ==
-  /\ UNCHANGED <<geo, combine>> /\ path' = Append(path, "FilterActualLayers")
+  /\ UNCHANGED <<geo, combine, exact>> /\ path' = Append(path, "FilterActualLayers")
   /\ pc = "filter"
   /\ IF authz.all THEN /\ pc' = "render" /\ UNCHANGED <<actual, out>>
      ELSE IF \E n \in Range(actual) : n \notin DOMAIN authz.lims /\ n \in req.expl
@@ -241,27 +319,34 @@ FilterActualLayers ==
 LimOf(n) == IF authz.all \/ authz.lims[n] = NONE THEN {} ELSE {authz.lims[n]}
 
 \* LayerRenderer.render + LayerMerger.merge: every remaining layer is fetched (LimitedLayer does not restrict the
-\* upstream request), clipped to its own coverage, composited bottom to top, the result clipped to the request coverage
+\* upstream request), clipped to its own coverage, composited bottom to top, the result clipped to the request coverage.
+\* A request reduced to the part inside the SRS extent is rendered and masked as the sub-query (code as found: the masks
+\* are drawn in the geometry of the sub-query, see SubClass) and pasted: outside the pasted rectangle nothing is shown
 PixelAllowed(b, i, j) ==
-  LET cl == [k \in DOMAIN actual |-> ClassSetAt(LimOf(actual[k]), b, i, j)]
+  LET sub == Clipped(req) /\ ~exact
+      s == Sub(b)
+      cls(ids) == IF sub THEN SubClassSet(ids, s, i, j) ELSE ClassSetAt(ids, b, i, j)
+      cl == [k \in DOMAIN actual |-> cls(LimOf(actual[k]))]
       shown == {actual[k] : k \in {k \in DOMAIN actual : cl[k] # "out" /\ \A m \in DOMAIN actual : m > k => cl[m] # "in"}}
       under == IF \A k \in DOMAIN actual : cl[k] # "in" THEN {"dark"} ELSE {}
-      gc == ClassSetAt(cov, b, i, j)
+      gc == cls(cov)
   IN IF gc = "out" THEN {"dark"} ELSE IF gc = "band" THEN shown \cup under \cup {"dark"} ELSE shown \cup under
 
 RenderAndMerge ==
-  /\ UNCHANGED <<geo, combine>> /\ path' = Append(path, "RenderAndMerge")
+  /\ UNCHANGED <<geo, combine, exact>> /\ path' = Append(path, "RenderAndMerge")
   /\ pc = "render" /\ req.f = "wms.map"
   /\ LET b == req.box IN
      out' = [NoOut EXCEPT !.status = 200, !.ups_must = Range(actual), !.ups_may = Range(actual),
-                          !.px = [j \in 1 .. b[6] |-> [i \in 1 .. b[5] |-> Mask(PixelAllowed(b, i - 1, j - 1))]]]
+                          !.px = [j \in 1 .. b[6] |-> [i \in 1 .. b[5] |->
+                                    IF Clipped(req) /\ ~InPaste(Sub(b), i - 1, j - 1) THEN Mask({"dark"})
+                                    ELSE Mask(PixelAllowed(b, i - 1, j - 1))]]]
   /\ pc' = "done"
   /\ UNCHANGED <<req, cb, actual, authz, cov>>
 
 \* wms.py:226-238 + LimitedLayer.get_info: the query point is the upper left corner of pixel (I, J);
 \* GeomCoverage.contains(point) is true in the interior only; exactly on the boundary both answers are accepted
 InfoGate ==
-  /\ UNCHANGED <<geo, combine>> /\ path' = Append(path, "InfoGate")
+  /\ UNCHANGED <<geo, combine, exact>> /\ path' = Append(path, "InfoGate")
   /\ pc = "render" /\ req.f = "wms.fi"
   /\ LET pt == Corner(req.box, req.pos[1], req.pos[2])
          gcl == IF cov = {} THEN "in" ELSE PointClassAt(CHOOSE id \in cov : TRUE, pt)
@@ -295,7 +380,7 @@ Listed(n, lvl) ==    \* lvl = "must": certainly listed, "may": possibly listed
   ELSE ok(n)
 
 WmsCapabilities ==
-  /\ UNCHANGED <<geo, combine>> /\ path' = Append(path, "WmsCapabilities")
+  /\ UNCHANGED <<geo, combine, exact>> /\ path' = Append(path, "WmsCapabilities")
   /\ pc = "start" /\ req.f = "wms.caps"
   /\ out' = IF cb.authorized = "unauthenticated" THEN Error(401)
             ELSE IF cb.authorized = "full" THEN [NoOut EXCEPT !.status = 200, !.list_must = WmsNames, !.list_may = WmsNames]
@@ -309,7 +394,7 @@ WmsCapabilities ==
 \* ---------------------------------------------------------------------------------------------------------
 \* tile services: TileServer / KMLServer / WMTSServer .authorize_tile_layer
 TileAuthorize ==
-  /\ UNCHANGED <<geo, combine>> /\ path' = Append(path, "TileAuthorize")
+  /\ UNCHANGED <<geo, combine, exact>> /\ path' = Append(path, "TileAuthorize")
   /\ pc = "start" /\ IsTileReq(req.f)
   /\ LET key == Flag(req.f) IN
      IF cb.authorized = "unauthenticated" THEN /\ out' = Error(401) /\ pc' = "done" /\ UNCHANGED cov
@@ -326,7 +411,7 @@ TileAuthorize ==
 \* Both tests are made in the SRS of the coverage: with a raster entry (oblique world) the code tests the lon/lat envelope
 \* of the tile, so a tile the area misses may still be rendered and masked completely (upstream request, all pixels dark)
 TileRender ==
-  /\ UNCHANGED <<geo, combine>> /\ path' = Append(path, "TileRender")
+  /\ UNCHANGED <<geo, combine, exact>> /\ path' = Append(path, "TileRender")
   /\ pc = "tile" /\ req.f \in {"tms", "kml", "wmts.kvp", "wmts.rest"}
   /\ LET b == TileBox(req.tile)
          r == BoxRect(b)
@@ -351,7 +436,7 @@ TileRender ==
 
 \* WMTSServer.featureinfo: wmts.py:133-140
 TileInfoGate ==
-  /\ UNCHANGED <<geo, combine>> /\ path' = Append(path, "TileInfoGate")
+  /\ UNCHANGED <<geo, combine, exact>> /\ path' = Append(path, "TileInfoGate")
   /\ pc = "tile" /\ req.f \in {"wmts.fi.kvp", "wmts.fi.rest"}
   /\ LET pt == Corner(TileBox(req.tile), req.pos[1], req.pos[2])
          cls == {PointClassAt(id, pt) : id \in cov}
@@ -363,7 +448,7 @@ TileInfoGate ==
 
 \* KMLServer.kml (super overlay document), TileServer.tms_capabilities for one layer: authorization only
 TileDocument ==
-  /\ UNCHANGED <<geo, combine>> /\ path' = Append(path, "TileDocument")
+  /\ UNCHANGED <<geo, combine, exact>> /\ path' = Append(path, "TileDocument")
   /\ pc = "tile" /\ req.f \in {"kml.doc", "tms.layer"}
   /\ out' = [NoOut EXCEPT !.status = 200, !.list_must = {req.lay}, !.list_may = {req.lay}]
   /\ pc' = "done"
@@ -371,7 +456,7 @@ TileDocument ==
 
 \* TileServer / WMTSServer .authorized_tile_layers
 TileCapabilities ==
-  /\ UNCHANGED <<geo, combine>> /\ path' = Append(path, "TileCapabilities")
+  /\ UNCHANGED <<geo, combine, exact>> /\ path' = Append(path, "TileCapabilities")
   /\ pc = "start" /\ req.f \in {"tms.caps", "wmts.caps"}
   /\ out' = IF cb.authorized = "unauthenticated" THEN Error(401)
             ELSE IF cb.authorized = "full" THEN [NoOut EXCEPT !.status = 200, !.list_must = TileLayers, !.list_may = TileLayers]
@@ -382,7 +467,7 @@ TileCapabilities ==
   /\ UNCHANGED <<req, cb, actual, authz, cov>>
 
 ---------------------------------------------------------------------------
-Next == CollectLayers \/ CallAuthorize \/ FilterActualLayers \/ RenderAndMerge \/ InfoGate \/ WmsCapabilities
+Next == OutsideExtent \/ CollectLayers \/ CallAuthorize \/ FilterActualLayers \/ RenderAndMerge \/ InfoGate \/ WmsCapabilities
         \/ TileAuthorize \/ TileRender \/ TileInfoGate \/ TileDocument \/ TileCapabilities
 
 PermRecs == {[map |-> p.map, featureinfo |-> p.featureinfo, tile |-> p.tile, lim |-> l] : p \in PermOpts, l \in LimIds}
@@ -395,7 +480,7 @@ CBs == {[authorized |-> a, layers |-> <<>>, glob |-> g] : a \in AuthKinds \ {"pa
 Init ==
   /\ req \in Requests /\ cb \in CBs
   /\ pc = "start" /\ actual = <<>> /\ authz = [all |-> FALSE, lims |-> <<>>] /\ cov = {} /\ out = NoOut /\ path = <<>>
-  /\ geo = GeomTab /\ combine \in CombineChoices
+  /\ geo = GeomTab /\ combine \in CombineChoices /\ exact \in ExactChoices
 
 Spec == Init /\ [][Next]_vars
 
@@ -427,7 +512,8 @@ ClippedOutsideOn(o) ==
 ClippedOutside == Done => ClippedOutsideOn(out)
 
 \* content well inside is kept: where the unrestricted rendering of the same request shows layer v, v is permitted and
-\* the pixel lies more than one pixel inside every area v is limited to, the response shows v
+\* the pixel lies more than one pixel inside every area v is limited to, the response shows v.  A WMS service with an
+\* extent for the request SRS renders nothing outside that extent: content is demanded more than one pixel inside it only
 RefTop == IF req.f = "wms.map"
             THEN LET s == Collect(<<>>, req.ls, TRUE) IN IF s = <<>> THEN "dark" ELSE s[Len(s)]
             ELSE req.lay
@@ -435,7 +521,8 @@ ContentInsideOn(o) ==
   o.status = 200 /\ o.px # <<>> /\ RefTop # "dark" /\ Permitted(RefTop) =>
     LET b == BoxOf(req) IN
     \A j \in DOMAIN o.px : \A i \in DOMAIN o.px[j] :
-       (\A id \in AreasOf(RefTop) : ClassAt(id, b, i - 1, j - 1) = "in") => o.px[j][i] = Mask({RefTop})
+       (/\ (req.f = "wms.map" /\ HasExt) => WellInExt(b, i - 1, j - 1)
+        /\ \A id \in AreasOf(RefTop) : ClassAt(id, b, i - 1, j - 1) = "in") => o.px[j][i] = Mask({RefTop})
 ContentInside == Done => ContentInsideOn(out)
 
 \* feature info only for permitted layers and query points inside (or exactly on the edge of) every applicable area
@@ -445,15 +532,19 @@ InfoGateOn(o) ==
     \A n \in o.info_may : Permitted(n) /\ \A id \in AreasOf(n) : PointClassAt(id, pt) # "out"
 InfoGateOK == Done => InfoGateOn(out)
 
-\* unauthenticated -> 401, otherwise a response is produced
+\* unauthenticated -> 401, otherwise a response is produced (a GetMap that does not meet the SRS extent is answered with a
+\* blank image whatever the callback would say: it is not asked)
 StatusOK == Done => /\ out.status \in {200, 401, 403}
-                    /\ (out.status = 401) <=> (cb.authorized = "unauthenticated")
+                    /\ IF Blank(req) THEN out.status = 200 /\ Seen(out) = {} /\ out.ups_may = {}
+                       ELSE (out.status = 401) <=> (cb.authorized = "unauthenticated")
                     /\ out.ups_must \subseteq out.ups_may /\ out.info_must \subseteq out.info_may
                     /\ out.list_must \subseteq out.list_may
 
 TypeOK == /\ pc \in {"start", "authorize", "filter", "render", "tile", "done"}
           /\ Range(actual) \subseteq WmsNames
           /\ \A id \in DOMAIN geo : IF IsRaster(geo[id]) THEN WellFormedRaster(geo[id]) ELSE WellFormed(geo[id])
+          /\ HasExt => Len(Ext) = 4 /\ Ext[1] < Ext[3] /\ Ext[2] < Ext[4] /\ \A id \in DOMAIN geo : ~IsRaster(geo[id])
+          /\ SubOK(req)
 NoStuck == ~Done => ENABLED Next
 
 \* observation (not part of C10): an allowed layer that the unrestricted request would NOT show because it lies below
